@@ -111,6 +111,58 @@ package core
 //@      (len(state.Include) == 0 || anyGroup(target.Labels, target.Test != nil, state.Include)) && \
 //@      !anyGroup(target.Labels, target.Test != nil, state.Exclude))
 
+// ---------------------------------------------------------------------------------------------
+// Scheduling (C04): a target is handed to the build queue only by the caller that wins the Active->Pending
+// transition, only when it was asked to build, and only after it has waited for EVERY dependency in this
+// round and observed each of them not failed.
+//
+// Ghost variables: waited counts WaitForBuild calls since the last dependency resolution; allok records that
+// every dependency state observed since then was below DependencyFailed; woncas is the result of the last
+// compare-and-swap on the target's state.
+//@ assume func (BuildTarget).resolveDependencies
+//@ assume func (BuildTarget).WaitForBuild
+//@ assume func (BuildTarget).SyncUpdateState
+//@ assume func (BuildState).addPendingBuild
+//@ assume func (BuildState).queueTarget
+//@ assume func (BuildState).queueTargetData
+//@ assume func (BuildState).taskDone
+//@ assume func (BuildState).asyncError
+//@ assume func (BuildState).LogBuildResult
+//@ assume func (BuildTarget).SetState
+//@ assume func (BuildTarget).FinishBuild
+//
+//@ func (BuildState).queueTargetAsync
+//@   requires state != nil && target != nil
+//@   opt nopanic=off
+//@   opt panics=allowed
+//@   opt precall=off
+//@   callsite (BuildTarget).resolveDependencies track waited int: 0
+//@   callsite (BuildTarget).resolveDependencies track allok bool: true
+//@   callsite (BuildTarget).WaitForBuild track waited int: waited + 1
+//@   callsite (BuildTarget).State trackresult allok bool: allok && result < DependencyFailed
+//@   callsite (BuildTarget).SyncUpdateState trackresult woncas bool: result && arg_before == Active && arg_after == Pending
+//@   invariant "range target.Dependencies()" all_waited_and_ok [C04]: waited == idx && allok
+//@   callsite (BuildState).addPendingBuild only_when_building [C04]: building && arg_target == target
+//@   callsite (BuildState).addPendingBuild only_the_cas_winner [C04]: woncas
+//@   callsite (BuildState).addPendingBuild after_all_dependencies [C04]: allok && waited == completedrange
+//@   callsite (BuildTarget).SetState dependency_failed_only [C04]: arg_state == DependencyFailed && !allok
+//
+// queueResolvedTarget: the asynchronous queueing is started only by the caller that wins a transition out of
+// Inactive/Semiactive, and the pending counter is incremented before the goroutine is started.
+//@ func (BuildState).queueResolvedTarget
+//@   requires state != nil && target != nil
+//@   opt nopanic=off
+//@   opt precall=off
+//@   callsite (BuildTarget).SyncUpdateState trackresult wonq bool: result
+//@   callsite queueAsync only_the_winner [C04]: wonq
+//@   callsite (BuildTarget).SyncUpdateState legal_transition [C04]: (arg_before == Inactive && (arg_after == Active || arg_after == Semiactive)) || \
+//@      (arg_before == Semiactive && arg_after == Active)
+//@ func (BuildState).queueResolvedTarget.queueAsync
+//@   requires state != nil && target != nil
+//@   opt nopanic=off
+//@   opt precall=off
+//@   callsite (BuildState).queueTargetAsync counted_before_spawn [C04]: called("atomic.AddInt64") && arg_target == target
+
 // Used by the test-result reuse decisions (C11).
 //@ assume func (BuildTarget).State
 //@   pure
